@@ -13,15 +13,15 @@ claimed = {
    note="tickerCollector, real sockets and real time are replaced by injected doubles; responses obey causality; mutex release is not a scheduling point; races inside one step are invisible to the cooperative scheduler (see the -race pass); bounds: history depth, preemption bound, 2 environment deviations; 3 transaction ids",
    technique="stateless model checking of the implementation: controlled scheduler + preemption-bounded DFS over all interleavings and environment answers", ref="DESIGN.md section 2 C10"),
  "C11": dict(level="model_checking", engine="H+S",
-   text="every history up to depth 5/6 over Start / caller reuse / SetRTO / ticks at, just after and far beyond each deadline / response / write fault / Close on a virtual clock, for several RTOs and with/without retransmission, full-retransmission histories for request sizes 20..65532 bytes, two concurrent scenarios; each write is compared byte for byte with the snapshot taken at Start and timed against the deadlines",
+   text="every history up to depth 5/6 over Start / caller reuse / SetRTO / ticks at, just after and far beyond each deadline / response / write fault / Close on a virtual clock, for several RTOs and with/without retransmission, full-retransmission histories for request sizes 20..65532 bytes, five concurrent scenarios (incl. a large re-transmission racing the recycling of its transaction object), requests whose fields are out of step with Raw; each write is compared byte for byte with the snapshot taken at Start and timed against the deadlines",
    note="tickerCollector, real sockets and real time are replaced by injected doubles; responses obey causality; mutex release is not a scheduling point; races inside one step are invisible to the cooperative scheduler (see the -race pass); attempt limits other than 0 and 7 are not reachable through the public API and are not explored",
    technique="explicit-state enumeration of event histories on the real client under a controlled scheduler and virtual clock", ref="DESIGN.md section 2 C11"),
  "C12": dict(level="model_checking", engine="H+S",
-   text="every history up to depth 4/5 over three one-bit-apart ids, responses/duplicates, unknown ids and four kinds of undecodable datagrams with pool Get branching over recycled objects, with and without fallback handler; three concurrent scenarios incl. probe transactions on recycled objects; one 2000-transaction history; every handler invocation is checked for id, for a Message that is the decode of exactly a delivered datagram (fields and attributes), for delivery to the in-flight transaction and for single consumption",
-   note="tickerCollector, real sockets and real time are replaced by injected doubles; responses obey causality; mutex release is not a scheduling point; races inside one step are invisible to the cooperative scheduler (see the -race pass); 500 concurrent transactions and random ids are not attempted",
+   text="every history up to depth 4/5 over three one-bit-apart ids, responses/duplicates, unknown ids and four kinds of undecodable datagrams with pool Get branching over recycled objects, with and without fallback handler; six concurrent scenarios incl. probe transactions on recycled objects and a response that arrives while Start is still running; one 2000-transaction history; every handler invocation is checked for id, for a Message that is the decode of exactly a delivered datagram (fields and attributes), for delivery to the in-flight transaction (in flight from the moment the request is on the wire) and for single consumption; undecodable datagrams must have no effect at all",
+   note="tickerCollector, real sockets and real time are replaced by injected doubles; responses obey causality; mutex release is not a scheduling point; races inside one step are invisible to the cooperative scheduler (see the -race pass); 500 concurrent transactions and random ids are not attempted; one known finding (a response processed while its transaction is between a time-out and the re-transmission goes to the fallback handler) is listed in KNOWN_FINDINGS.txt",
    technique="stateless model checking of the implementation with environment-choice exploration (pool recycling) under a controlled scheduler", ref="DESIGN.md section 2 C12"),
  "C15": dict(level="model_checking", engine="H+S",
-   text="11 option sets (incl. handlers that call back into the client) x every history up to depth 4/5 ending in one or several Close calls, 9 concurrent Close scenarios x 5 option sets and 4 scenarios on a transport with blocking writes over every interleaving within preemption bound 2/3; Close result, goroutine exit, collector/connection close counts, silence after Close and ErrClientClosed from later calls are evaluated on every execution; deadlock = no enabled thread",
+   text="15 option sets (incl. handlers that call back into the client, Close errors with a meaningful identity and a connection Close that times out) x every history up to depth 4/5 ending in one or several Close calls, 9 concurrent Close scenarios x 5 option sets and 4 scenarios on a transport with blocking writes over every interleaving within preemption bound 2/3; Close result, goroutine exit, collector/connection close counts, silence after Close and ErrClientClosed from later calls are evaluated on every execution; deadlock = no enabled thread",
    note="tickerCollector, real sockets and real time are replaced by injected doubles; responses obey causality; mutex release is not a scheduling point; races inside one step are invisible to the cooperative scheduler (see the -race pass); the data-race clause is covered only by the free-running -race pass over the same scenario bodies (sampled schedules, reported separately)",
    technique="stateless model checking of the implementation: controlled scheduler + preemption-bounded DFS", ref="DESIGN.md section 2 C15"),
  "C14": dict(level="model_checking", engine="S",
